@@ -100,11 +100,21 @@ fn enc_event(out: &mut Out, rows: &[Vec<usize>], n: usize, rng: &mut Rng) {
             Err(_) => (false, vec![], vec![]),
             Ok(enc) => {
                 let (msgs, lin) = messages(n - r, rng);
+                // encode() takes an array VIEW: the same message through owned / stride -1 / stride 2 / stride -2 storage
                 let pairs: Vec<Value> = msgs
                     .iter()
-                    .map(|m| {
-                        let c = enc.encode(&to_gf2(m));
-                        json!({"m": m, "c": bits(&c)})
+                    .enumerate()
+                    .map(|(t, m)| {
+                        use ndarray::s;
+                        let g = to_gf2(m);
+                        let gv: Vec<GF2> = g.to_vec();
+                        let c = match (t + n) % 4 {
+                            0 => enc.encode(&g),
+                            1 => { let st = ndarray::Array1::from_iter(gv.iter().rev().cloned()); enc.encode(&st.slice(s![..;-1])) }
+                            2 => { let st = ndarray::Array1::from_iter(gv.iter().flat_map(|x| [x.clone(), GF2::one()])); enc.encode(&st.slice(s![..;2])) }
+                            _ => { let st = ndarray::Array1::from_iter(gv.iter().rev().flat_map(|x| [GF2::one(), x.clone()])); enc.encode(&st.slice(s![..;-2])) }
+                        };
+                        json!({"m": m, "c": bits(&c), "layout": (t + n) % 4})
                     })
                     .collect();
                 (true, pairs, lin)
